@@ -144,6 +144,10 @@ func (e *Explorer) nondetBytes(name string, min, max int) []value {
 
 func (e *Explorer) nondetChoice(name string, n int) value {
 	name = e.freshName(name)
+	if f, ok := e.Forced[name]; ok && f < n {
+		e.choices[name] = f
+		return f
+	}
 	k := e.Choice(n)
 	e.choices[name] = k
 	return k
